@@ -73,7 +73,7 @@ func c18Pairs() [][2]string {
 
 func (p c18) counts(c *run.Ctx) (jitter int, dirReps int) {
 	if c.Tier == "thorough" {
-		return 6000, 8
+		return 12000, 8
 	}
 	return 420, 1
 }
